@@ -131,8 +131,8 @@ func (e *Exec) checkProtected(st *State, fr *Frame, instr ssa.Instruction, addr 
 	if pr == nil {
 		return
 	}
-	if pr.Unlocked[shortName(fr.fn)] || pr.Unlocked[shortName(e.top)] {
-		return
+	if !write && (pr.Unlocked[shortName(fr.fn)] || pr.Unlocked[shortName(e.top)]) {
+		return // declared owner-thread read
 	}
 	base := a.idx
 	lock := faTerm(pr.st, pr.lockIdx, base)
